@@ -188,6 +188,26 @@ def geom_many_pages(rng: random.Random, w: int) -> Dict[str, Any]:
     return {'segments': segs, 'cuts': [5, 1000, 16 * PAGE + 1, PAGE]}
 
 
+def geom_big_first(rng: random.Random, w: int) -> Dict[str, Any]:
+    """a first segment of SEVERAL whole 2^14-word pages (code and data spread all over it: the kind of program that reserves a
+    large table behind its code), and small segments at and above the default flat window (2^23 words): hybrid storage in which
+    whole loaded pages lie inside the window, next to page-backed segments whose page numbers are round (multiples of 64 pages =
+    2^20 words) or arbitrary."""
+    top_page = max_words(w) // PAGE
+    pages = rng.choice([1, 2, 3, 5, 9, 17, 30])
+    segs = [(0, _even(pages * PAGE + rng.choice([0, 2, 100, PAGE // 2, PAGE - 2])))]
+    window_page = (1 << 23) // PAGE
+    chosen = set()
+    for k in range(rng.choice([2, 5, 12, 30])):
+        p = rng.choice([window_page + k, window_page + 64 * k, 64 * (k + 8), window_page, rng.randrange(window_page, min(top_page - 1, 1 << 13))])
+        if p in chosen or p + 1 >= top_page:
+            continue
+        chosen.add(p)
+        off = rng.choice([0, 0, 2, 100, PAGE - 4])
+        segs.append((p * PAGE + off, rng.choice([4, 6, 8]) if off < PAGE - 8 else PAGE - off))
+    return {'segments': segs, 'cuts': [segs[0][1], (pages + 1) * PAGE, 1 << 20, 5]}
+
+
 def _dedupe(segs: List[Tuple[int, int]]) -> List[Tuple[int, int]]:
     """drop segments overlapping or touching out of range; keep (0, n) first."""
     out: List[Tuple[int, int]] = []
@@ -212,6 +232,7 @@ GEOMETRIES = {
     'magic': (geom_gaps, (64,)),
     'many': (geom_many, (16, 32, 64)),
     'many-pages': (geom_many_pages, (32, 64)),
+    'big-first': (geom_big_first, (32, 64)),
 }
 
 
